@@ -123,6 +123,8 @@ def impl_features(it, info):
         feats = ["<update_with_bare_parent>"]
     elif "parent_bare" in feats and any(f.startswith("ghosts") for f in feats) and base_cls == "into":
         feats = ["<ghosts_with_bare_parent>"]
+    elif "parent_bare" in feats and "child" in feats and base_cls == "into":
+        feats = ["<child_with_bare_parent>"]
     elif "parent_bare" in feats and "tuple" in feats and base_cls == "into":
         feats = ["<bare_parent_in_tuple_struct>"]
     return "existing" if "existing" in base else base.split("_")[0] if base.startswith("from") else "into", feats
